@@ -1,7 +1,217 @@
-//! C19: not built yet.
-use anyhow::{bail, Result};
-use serde_json::Value;
+//! C19: maven_dependency_resolver::get_maven_dependencies over an in-memory repository set;
+//! Display / parse round trips of MavenCoord, DependencyScope, FoundDependency.
+//!
+//! ops  {"op":"resolve","U":{"poms":[Pom..],"repos":[Repo..]},"roots":[Root..]}
+//!                                   -> {"ok":true,"v":[{"g","a","v","c","t","s","r"}..]} | {"ok":false,"v":[]}
+//!      {"op":"coord","x":{"g","a","v","c","t"}}            -> {"ok":b,"v":components of parse(print(x)),"text":printed}
+//!      {"op":"scope","x":"compile"|..}                       -> {"ok":b,"v":parse(print(x))}
+//!      {"op":"found","x":{"g","a","v","c","t","s","u"}}    -> {"ok":b,"v":components of parse(print(x))}
+//! Pom  {"g","a","v","pk":"jar"|"pom","par":[]|[Id],"inh":bool,"mg":[Managed..],"deps":[Dep..]}
+//! Id   {"g","a","v"};  Repo {"name","url","has":[Id..]}
+//! Managed {"g","a","c":[]|[x],"t":""|type,"v","s":""|scope|"import"}
+//! Dep  {"g","a","c":[]|[x],"t":""|type,"v":""|version,"s":""|scope,"o":""|"true"|"false"}   ("" = element omitted)
+//! Root {"g","a","v","c":[]|[x],"t":type,"s":scope}
+//!
+//! The driver only converts: abstract universe -> POM XML text (parsed by serde_xml_rs into the
+//! crate's own MavenPom, as the crate's tests do) -> Downloader keyed by the Maven repository layout
+//! URL; result -> abstract list.  It computes no expectation.
+use std::collections::HashMap;
+use std::future::Future;
+use std::str::FromStr;
+use anyhow::{Context, Result};
+use serde_json::{json, Value};
+use maven_dependency_resolver::{get_maven_dependencies, DependencyScope, Downloader, FoundDependency};
+use maven_dependency_resolver::coord::MavenCoord;
+use maven_dependency_resolver::maven_pom::MavenPom;
+use maven_dependency_resolver::resolver::Resolver;
 
-pub fn exec(_v: &Value) -> Result<Value> { bail!("C19: driver not built") }
+#[path = "c19_gen.rs"]
+mod c19_gen;
 
-pub fn gen(_seed: u64, _n: usize) -> Result<Vec<Value>> { bail!("C19: driver not built") }
+/// In-memory repositories: URL of a .pom file -> its XML text.
+struct MemRepos(HashMap<String, String>);
+
+impl Downloader for MemRepos {
+	#[allow(clippy::manual_async_fn)]
+	fn get_maven_pom(&self, url: &str) -> impl Future<Output = Result<Option<MavenPom>>> + Send {
+		async move { self.0.get(url).map(|xml| serde_xml_rs::from_str(xml).context("maven pom")).transpose() }
+	}
+}
+
+/// All futures of the resolver are ready at once (the downloader never waits): poll in a loop.
+fn block_on<F: Future>(f: F) -> F::Output {
+	use std::sync::Arc;
+	use std::task::{Context as Cx, Poll, Wake, Waker};
+	struct Noop;
+	impl Wake for Noop { fn wake(self: Arc<Self>) {} }
+	let waker = Waker::from(Arc::new(Noop));
+	let mut cx = Cx::from_waker(&waker);
+	let mut f = std::pin::pin!(f);
+	loop {
+		if let Poll::Ready(x) = f.as_mut().poll(&mut cx) { return x; }
+	}
+}
+
+fn s(v: &Value) -> String { v.as_str().unwrap_or("").to_owned() }
+fn opt1(v: &Value) -> Option<String> { v.as_array().and_then(|a| a.first()).map(s) }
+fn arr(v: &Value) -> &[Value] { v.as_array().map(|a| a.as_slice()).unwrap_or(&[]) }
+
+fn esc(x: &str) -> String { x.replace('&', "&amp;").replace('<', "&lt;").replace('>', "&gt;") }
+fn el(out: &mut String, tag: &str, val: &str) {
+	out.push_str(&format!("<{tag}>{}</{tag}>", esc(val)));
+}
+fn el_opt(out: &mut String, tag: &str, val: &str) { if !val.is_empty() { el(out, tag, val); } }
+
+fn dep_xml(out: &mut String, d: &Value) {
+	out.push_str("<dependency>");
+	el(out, "groupId", &s(&d["g"]));
+	el(out, "artifactId", &s(&d["a"]));
+	el_opt(out, "version", &s(&d["v"]));
+	el_opt(out, "type", &s(&d["t"]));
+	if let Some(c) = opt1(&d["c"]) { el(out, "classifier", &c); }
+	el_opt(out, "scope", &s(&d["s"]));
+	el_opt(out, "optional", &s(&d["o"]));
+	out.push_str("</dependency>");
+}
+
+/// Abstract POM -> XML text.
+pub fn pom_xml(p: &Value) -> String {
+	let mut o = String::from("<project><modelVersion>4.0.0</modelVersion>");
+	if let Some(par) = arr(&p["par"]).first() {
+		o.push_str("<parent>");
+		el(&mut o, "groupId", &s(&par["g"]));
+		el(&mut o, "artifactId", &s(&par["a"]));
+		el(&mut o, "version", &s(&par["v"]));
+		o.push_str("</parent>");
+	}
+	let inh = p["inh"].as_bool().unwrap_or(false);
+	if !inh { el(&mut o, "groupId", &s(&p["g"])); }
+	el(&mut o, "artifactId", &s(&p["a"]));
+	if !inh { el(&mut o, "version", &s(&p["v"])); }
+	if s(&p["pk"]) != "jar" { el(&mut o, "packaging", &s(&p["pk"])); }
+	if !arr(&p["mg"]).is_empty() {
+		o.push_str("<dependencyManagement><dependencies>");
+		for d in arr(&p["mg"]) { dep_xml(&mut o, d); }
+		o.push_str("</dependencies></dependencyManagement>");
+	}
+	if !arr(&p["deps"]).is_empty() {
+		o.push_str("<dependencies>");
+		for d in arr(&p["deps"]) { dep_xml(&mut o, d); }
+		o.push_str("</dependencies>");
+	}
+	o.push_str("</project>");
+	o
+}
+
+/// Maven repository layout: where the .pom of g:a:v lives below a repository URL.
+fn pom_url(repo_url: &str, g: &str, a: &str, v: &str) -> String {
+	format!("{repo_url}{}{}/{a}/{v}/{a}-{v}.pom", if repo_url.ends_with('/') { "" } else { "/" }, g.replace('.', "/"))
+}
+
+/// abstract scope name <-> enum variant, written out by hand (independent of Display / FromStr under test)
+fn scope_of(x: &str) -> Result<DependencyScope> {
+	Ok(match x {
+		"compile" => DependencyScope::Compile,
+		"runtime" => DependencyScope::Runtime,
+		"test" => DependencyScope::Test,
+		"system" => DependencyScope::System,
+		"provided" => DependencyScope::Provided,
+		_ => anyhow::bail!("C19: bad scope {x:?} in record"),
+	})
+}
+fn scope_name(x: DependencyScope) -> &'static str {
+	match x {
+		DependencyScope::Compile => "compile",
+		DependencyScope::Runtime => "runtime",
+		DependencyScope::Test => "test",
+		DependencyScope::System => "system",
+		DependencyScope::Provided => "provided",
+	}
+}
+
+fn coord_of(x: &Value) -> MavenCoord {
+	MavenCoord { group: s(&x["g"]), artifact: s(&x["a"]), version: s(&x["v"]), classifier: opt1(&x["c"]), type_: s(&x["t"]) }
+}
+fn coord_json(c: &MavenCoord) -> Value {
+	json!({"g": c.group, "a": c.artifact, "v": c.version, "c": c.classifier.iter().collect::<Vec<_>>(), "t": c.type_})
+}
+
+fn resolve(v: &Value) -> Result<Value> {
+	let u = &v["U"];
+	let mut poms: HashMap<(String, String, String), String> = HashMap::new();
+	for p in arr(&u["poms"]) {
+		let xml = pom_xml(p);
+		// the generated text must be a POM the crate's model accepts: otherwise the harness is wrong
+		serde_xml_rs::from_str::<MavenPom>(&xml).with_context(|| format!("harness rendered an unreadable POM: {xml}"))?;
+		poms.insert((s(&p["g"]), s(&p["a"]), s(&p["v"])), xml);
+	}
+	let mut files = HashMap::new();
+	let mut names: Vec<(String, String)> = vec![];
+	for r in arr(&u["repos"]) {
+		let url = s(&r["url"]);
+		for id in arr(&r["has"]) {
+			let key = (s(&id["g"]), s(&id["a"]), s(&id["v"]));
+			let xml = poms.get(&key).with_context(|| format!("repository serves unknown pom {key:?}"))?;
+			files.insert(pom_url(&url, &key.0, &key.1, &key.2), xml.clone());
+		}
+		names.push((s(&r["name"]), url));
+	}
+	let resolvers: Vec<Resolver> = names.iter().map(|(n, u)| Resolver::new(n, u)).collect();
+	let mut roots = vec![];
+	for r in arr(&v["roots"]) {
+		roots.push((coord_of(r), scope_of(&s(&r["s"]))?));
+	}
+	let dl = MemRepos(files);
+	Ok(match block_on(get_maven_dependencies(&dl, &resolvers, &roots)) {
+		Ok(list) => {
+			let out: Vec<Value> = list.iter().map(|f| {
+				let mut j = coord_json(&f.coord);
+				j["s"] = json!(scope_name(f.scope));
+				j["r"] = json!(f.resolver.name);
+				j
+			}).collect();
+			json!({"ok": true, "v": out})
+		},
+		Err(_) => json!({"ok": false, "v": []}),
+	})
+}
+
+pub fn exec(v: &Value) -> Result<Value> {
+	let op = v["op"].as_str().context("op")?;
+	Ok(match op {
+		"resolve" => resolve(v)?,
+		"coord" => {
+			let c = coord_of(&v["x"]);
+			let text = c.to_string();
+			match MavenCoord::from_str(&text) {
+				Ok(b) => json!({"ok": true, "v": coord_json(&b), "text": text}),
+				Err(_) => json!({"ok": false, "v": [], "text": text}),
+			}
+		},
+		"scope" => {
+			let text = scope_of(&s(&v["x"]))?.to_string();
+			match DependencyScope::from_str(&text) {
+				Ok(b) => json!({"ok": true, "v": scope_name(b), "text": text}),
+				Err(_) => json!({"ok": false, "v": [], "text": text}),
+			}
+		},
+		"found" => {
+			let x = &v["x"];
+			let url = s(&x["u"]);
+			let f = FoundDependency { resolver: Resolver::new("some name", &url), coord: coord_of(x), scope: scope_of(&s(&x["s"]))? };
+			let text = f.to_string();
+			match FoundDependency::try_from(text.as_str()) {
+				Ok(b) => {
+					let mut j = coord_json(&b.coord);
+					j["s"] = json!(scope_name(b.scope));
+					j["u"] = json!(b.resolver.maven);
+					json!({"ok": true, "v": j, "text": text})
+				},
+				Err(_) => json!({"ok": false, "v": [], "text": text}),
+			}
+		},
+		_ => anyhow::bail!("C19: unknown op {op}"),
+	})
+}
+
+pub fn gen(seed: u64, n: usize) -> Result<Vec<Value>> { c19_gen::gen(seed, n) }
